@@ -1133,12 +1133,15 @@ class ConcurrentVector {
       detail::log2const(SizeTraits::kMaxVectorSize / (SizeTraits::kDefaultCapacity / 2)) + 1;
 
 #if DISPENSO_HAS_CACHED_PTRS
-  // Non-atomic cache of buffer pointers for read-hot paths. Buffer pointers are write-once
+  // Cache of buffer pointers for read-hot paths. Buffer pointers are write-once
   // (never change after allocation) and are stored here BEFORE the release store to buffers_[],
   // so any thread that acquires from buffers_[] is guaranteed to see the cached value.
-  // All concurrent writes to a given slot store the same value.
+  // All concurrent writes to a given slot store the same value. The slots are relaxed atomics: an
+  // iterator stepping to the end of a bucket reads the next bucket's slot (to form the position after
+  // the last element) while another thread's growth may be writing it, and concurrent growers write
+  // the same slot; with plain pointers both are data races.
   // Disabled on ARM where cache-line invalidation pressure exceeds the read-path benefit.
-  alignas(kCacheLineSize) mutable T* cachedPtrs_[kMaxBuffers];
+  alignas(kCacheLineSize) mutable cv::RelaxedPtr<T> cachedPtrs_[kMaxBuffers];
 #endif
 
   size_t firstBucketShift_;
